@@ -23,6 +23,8 @@ def quote(text, q='"', escape_other=False, raw_newline=False):
     for ch in text:
         if ch == "\n" and raw_newline:
             out.append(ch)
+        elif ch == "\r" and raw_newline == "crlf":
+            out.append(ch)  # a raw CR LF pair inside the quotes (a multi-line value in a file with Windows line ends)
         elif ch in ESC:
             out.append(ESC[ch])
         elif ch == q or (escape_other and ch in "\"'"):
@@ -113,6 +115,8 @@ def _scalar_item(v, path, role="val"):
             alts.append(v[1])
         if "\n" in v[1]:
             alts.append(quote(v[1], '"', raw_newline=True))  # raw newline inside the quotes
+        if "\r\n" in v[1] and "\r" not in v[1].replace("\r\n", ""):
+            alts.append(quote(v[1], '"', raw_newline="crlf"))
         return Item(_uniq(alts), (role, path))
     if k == "bare":
         return Item(_uniq([v[1], quote(v[1], '"'), quote(v[1], "'")]), (role, path))
@@ -293,12 +297,13 @@ INT_FORMS = ["0", "5", "-3", "+7", "12", "007", "-0"]
 DEC_FORMS = ["5.4", "5.", ".5", "-.5", "+1.5", "1.5e3", ".13E10", "2.5e-3", "0.0", "-0.0", "1.50"]
 BARE_STRINGS = ["Foo", "foo_bar9", "/Path/To/123.txt", "C:\\path\\to\\thing", "A+/-B", "This is a string.", "two words", "5abc", "007x",
                 "1.50abc", "http://example.org/a.b", "caf\u00e9", "a.b.c", "x y z", "..\\rel\\p.csv", "data/file name.csv", "True", "a1:b2",
-                "True Color", "is False", "False/positives.csv", "x True y", "Truecolor", "TrueThreshold value", "\U0001f600 smile", "\u4e2d\u6587 name"]
+                "True Color", "is False", "False/positives.csv", "x True y", "Truecolor", "TrueThreshold value", "\U0001f600 smile", "\u4e2d\u6587 name",
+                "Gr\u00f6\u00dfe 2", "A\u00f1o 2020", "\u00fcber 1.5", "Z\u00fcrich-2"]  # non-ASCII first letter, number at the end: one unquoted string
 QUOTED_SYMBOLS = ["a", " ", '"', "'", "\\", "#", ",", "]", "=", "\u00e9", "\n"]
 QUOTED_NAMED = ["", "C:\\temp\\new.csv", "A+, \n", "He said \"hi\" to 'them'", "tab\there", "x" * 40, "[1, 2]", "key: value", "(a = b)", "\u20ac 5",
                 "ends with backslash\\", "# not a comment", "  padded  ", "5", "1.5", "True",
                 "\U0001f600", "score \U0001f600\U0001d11e", "\u4e2d\u6587", "True Color", "False",
-                "\ufeffelev", "a\ufeffb", "\u200bzw", "nb\u00a0sp"]
+                "\ufeffelev", "a\ufeffb", "\u200bzw", "nb\u00a0sp", "Fire risk\r\nnorth unit", "a\r\n\r\nb", "A\u0301rea", "\u212b ngstr\u00f6m"]
 
 
 def quoted_strings(maxlen):
